@@ -3,7 +3,7 @@
 import ast
 
 from .. import AnalysisError
-from ..astutil import src, call_name, dotted, walk_local, try_fold, ancestors
+from ..astutil import src, call_name, dotted, walk_local, try_fold, ancestors, parent, enclosing_stmt, path_conditions, kwarg
 from ..fn import FA, expand
 from ..permtype import OrderAnalysis, fmt
 from ..poly import poly_of, NotPoly, Poly
@@ -27,10 +27,10 @@ META = {
         'interpolates with the mask invvar == 0, the mean store is indexed by the complement of invvar > 0, nothing returns '
         'a copy, and the input is returned unchanged when no pixel is bad; C17.SKY - skymask tests exactly BADSKYCHI and '
         'REDMONSTER on ormask, dilates each row with width 2*ngrow+1 using the edge-truncating smooth, multiplies invvar by the '
-        'complement; C17.SKY-CAST - each & between the caller\'s mask and a uint64 flag value has an explicit conversion. '
+        'complement; C17.SKY-CAST - each & between the caller\'s mask and a uint64 flag value has an explicit conversion; C17.SKY-WIDTH - a mask widened to 64 bits is cut back to its own item size (or converted through the unsigned type of its own size) before the flag tests, on every path a signed mask can take: sign extension of a negative int16 entry would show bits 27 and 28 (decided for derivations made of conversions, selections and item-size masks; others get no verdict). '
         'C17.MEDIAN - djs_median does not pad with the non-repeating reflect mode of numpy.pad. C17.SMOOTH - smooth() uses the requested width made odd and returns its input unchanged only for widths below 3; C17.REJ-MASKS also: the model-less first pass hands back the input mask. C17.FLOAT-OUT - the arrays that djs_maskinterp fills with interpolated samples and djs_reject with scaled deviations are not allocated in the dtype of the data; C17.INMASK-TRUTH - djs_reject turns the caller\'s inmask into truth values before combining it bitwise; NOT decided: the explicit reflection slices of djs_median, maxrej/group logic, numerical interpolation values.'),
     'floors': {'C17.INMASK-TRUTH': 2, 'C17.FLOAT-OUT': 2, 'C17.SMOOTH': 1, 'C17.MI-SITES': 2, 'C17.MI1-STORE': 6, 'C17.MI1-ORDER': 1, 'C17.GROW': 4, 'C17.REJ-MASKS': 10, 'C17.AESTH': 4,
-               'C17.SKY': 5, 'C17.SKY-CAST': 1, 'C17.MEDIAN': 1},
+               'C17.SKY': 5, 'C17.SKY-CAST': 1, 'C17.SKY-WIDTH': 2, 'C17.MEDIAN': 1},
 }
 
 IMAGE = 'pydl/pydlutils/image.py'
@@ -716,6 +716,101 @@ def check_skymask(ctx, repo):
         return
     tested = set()
     tests = []
+    mask_tests = []
+    WIDE = ('uint64', 'int64', "'u8'", "'i8'", '"u8"', '"i8"', "'<u8'", "'<i8'", 'ulonglong', 'longlong')
+
+    def signed_test(t):
+        """True: the test holds exactly for signed mask types; False: exactly for the others; None: not a test of signedness."""
+        if isinstance(t, ast.UnaryOp) and isinstance(t.op, ast.Not):
+            r = signed_test(t.operand)
+            return None if r is None else not r
+        if isinstance(t, ast.Compare) and len(t.ops) == 1 and src(t.left).endswith('.kind'):
+            v = try_fold(t.comparators[0])
+            op = t.ops[0]
+            if isinstance(op, (ast.Eq, ast.In)) and v in ('i', ('i',), ['i']):
+                return True
+            if isinstance(op, ast.NotEq) and v == 'u':
+                return True
+            if isinstance(op, (ast.Eq, ast.In)) and v in ('u', ('u',), ['u']):
+                return False
+            if isinstance(op, ast.NotEq) and v == 'i':
+                return False
+            return None
+        if isinstance(t, ast.Call) and call_name(t) == 'issubdtype' and len(t.args) == 2:
+            if src(t.args[1]).endswith('signedinteger') and not src(t.args[1]).endswith('unsignedinteger'):
+                return True
+            if src(t.args[1]).endswith('unsignedinteger'):
+                return False
+        return None
+
+    def mask_chains(e, depth=0):
+        """Every way the value of e derives from a parameter: (root parameter, [ops from the parameter to the use]) with ops 'wide' (conversion
+        to a 64-bit type: sign-extends a negative value), 'same' (conversion through a type computed from the mask's own item size: no
+        extension), 'width' (& with a constant computed from the item size: extension bits removed), 'keep' (selection, copy); None for a
+        derivation this reader does not understand."""
+        if depth > 10:
+            return [None]
+        if isinstance(e, ast.Name):
+            out = []
+            ds = fa.defs(e)
+            # a definition made directly in the body of `if <the mask type is signed>:` replaces the earlier ones whenever the mask is signed
+            signed_ifs = []
+            for d, v in ds:
+                st_ = enclosing_stmt(d) if not isinstance(d, ast.arg) else None
+                par = parent(st_) if st_ is not None else None
+                if isinstance(par, ast.If) and any(st_ is b for b in par.body) and signed_test(par.test) is True:
+                    signed_ifs.append(par)
+                elif isinstance(par, ast.If) and any(st_ is b for b in par.orelse) and signed_test(par.test) is False:
+                    signed_ifs.append(par)
+            for d, v in ds:
+                if isinstance(d, ast.arg):
+                    out.append((e.id, []))
+                elif v is None:
+                    out.append(None)
+                else:
+                    sub = mask_chains(v, depth + 1)
+                    st_ = enclosing_stmt(d)
+                    pcs = [(signed_test(t), pol) for t, pol in path_conditions(st_)]
+                    unsigned_only = any(sg is not None and sg != pol for sg, pol in pcs) or \
+                        any(st_.lineno < I.lineno and not any(a is I for a in ancestors(st_)) for I in signed_ifs)
+                    if unsigned_only:
+                        sub = [None if c is None else (c[0], c[1] + ['unsigned']) for c in sub]
+                    out += sub
+            return out or [None]
+
+        def then(inner, op):
+            return [None if c is None else (c[0], c[1] + [op]) for c in mask_chains(inner, depth + 1)]
+        if isinstance(e, ast.Subscript):
+            return then(e.value, 'keep')
+        if isinstance(e, ast.Call):
+            cn = call_name(e)
+            if cn in ('astype', 'view') and isinstance(e.func, ast.Attribute) and e.args:
+                t = src(e.args[0])
+                if any(w in t for w in WIDE):
+                    return then(e.func.value, 'wide' if cn == 'astype' else 'other')
+                if 'itemsize' in t or ('replace' in t and 'str' in t) or 'newbyteorder' in t:
+                    return then(e.func.value, 'same')
+                return [None]
+            if cn in ('uint64', 'int64') and len(e.args) == 1:
+                return then(e.args[0], 'wide')
+            if cn in ('asarray', 'array', 'asanyarray') and e.args:
+                dt = kwarg(e, 'dtype', 1)
+                if dt is None:
+                    return then(e.args[0], 'keep')
+                if any(w in src(dt) for w in WIDE):
+                    return then(e.args[0], 'wide')
+                return [None]
+            if cn in ('copy', 'ravel', 'ascontiguousarray') and (e.args or isinstance(e.func, ast.Attribute)):
+                return then(e.args[0] if e.args else e.func.value, 'keep')
+            return [None]
+        bo_ = _bitop(e)
+        if bo_ is not None and bo_[0] == '&':
+            for a, b_ in ((bo_[1], bo_[2]), (bo_[2], bo_[1])):
+                bt = src(expand(b_, fa, depth=3, calls=True)) if not isinstance(b_, ast.Constant) else src(b_)
+                if 'itemsize' in bt or 'iinfo' in bt or 'nbytes' in bt:
+                    return then(a, 'width')
+            return [None]
+        return [None]
     for n in walk_local(f.node):
         bo = _bitop(n)
         if bo is None or bo[0] != '&':
@@ -730,6 +825,13 @@ def check_skymask(ctx, repo):
         od = fa.deep(other[0])
         from_mask = mask_param in src(od)
         conv = isinstance(od, ast.Call) and (call_name(od) in ('astype', 'uint64', 'asarray') and ('uint64' in src(od) or 'u8' in src(od)))
+        chains = mask_chains(other[0])
+        known = [c for c in chains if c is not None]
+        if not (from_mask and conv) and chains and len(known) == len(chains):
+            # several definitions reach the operand (a conversion followed by a conditional correction): judge every one of them
+            from_mask = all(c[0] == mask_param for c in known)
+            conv = all(any(op in ('wide', 'same') for op in c[1]) for c in known)
+        mask_tests.append((n, chains))
         conv_flag = False
         fd = fa.deep(flag[0][0])
         if isinstance(fd, ast.Call) and call_name(fd) not in ('sdss_flagval', 'bitwise_or') and _bitop(fd) is None:
@@ -738,6 +840,20 @@ def check_skymask(ctx, repo):
                   '`%s`: the mask operand is explicitly converted (%s)' % (src(n), src(od)[:40]),
                   msg='`%s` combines the caller\'s integer mask with a uint64 flag value without an explicit conversion: under NumPy 2 this raises '
                       'TypeError for the signed int16/int32/int64 masks stored in spPlate files' % src(n), construct='mask & flag: ' + src(n))
+    # a signed mask widened to 64 bits is sign-extended: a negative int16 entry (bit 15 only) would show bits 27 and 28. Decided only for
+    # derivations made of conversions, selections and item-size masks; any other derivation is left without a verdict.
+    for n, chains in mask_tests:
+        for c in chains:
+            if c is None or c[0] != mask_param:
+                continue
+            ops = c[1]
+            ext = [i for i, op in enumerate(ops) if op == 'wide' and 'same' not in ops[:i] and 'width' not in ops[i + 1:] and 'other' not in ops
+                   and 'unsigned' not in ops]
+            ctx.check('C17.SKY-WIDTH', not ext, f, n,
+                      '`%s`: the mask reaches the flag test without sign extension (%s)' % (src(n), ' > '.join(ops) or 'as given'),
+                      msg='`%s` tests a mask that was widened to 64 bits (%s) and never cut back to its own width: a negative int16 entry (bit 15 '
+                          'only) is sign-extended and shows BADSKYCHI and REDMONSTER, so unflagged pixels lose their inverse variance'
+                          % (src(n), ' > '.join(ops)), construct='sign-extended mask: ' + src(n))
     ctx.check('C17.SKY', tested == {('SPPIXMASK', 'BADSKYCHI'), ('SPPIXMASK', 'REDMONSTER')}, f, f.node,
               'exactly BADSKYCHI and REDMONSTER are tested on the or-mask', msg='skymask tests %s' % sorted(tested), construct='flags tested')
 
